@@ -132,7 +132,7 @@ def inInt64 (rows : List (List Int)) : Bool := rows.all fun row => row.all fun z
 def sampleArrayInt (rows : List (List Int)) : Except Err (Nat × List (List Int)) :=
   match pickWidth (sampleMax rows) with
   | none =>
-    -- `except StopIteration`: (after the fix of D60) an array that already is int64 keeps its type — NumPy gave it that type because
+    -- `except StopIteration`: (after the fix of D-r7b1) an array that already is int64 keeps its type — NumPy gave it that type because
     -- every entry is within the int64 range; otherwise `ValueError`
     if Generated.EnergyLoops.sampleKeepsInt64 && inInt64 rows then .ok (64, rows) else .error .value
   | some w => .ok (w, rows.map fun row => row.map (wrapTo w))
